@@ -71,6 +71,7 @@ fn main() {
                         files.push(scen::archive_bytes(7, c));
                     }
                     files.push(scen::archive_bytes(0, 2));
+                    files.push(scen::big_tile_archive());
                     scen::drive_reads(seed, &tier, files, &mut out)
                 }
                 "history" => store::drive_history(seed, &tier, &mut out),
